@@ -225,22 +225,23 @@ class FTPProcessorSession(BaseProcessorSession):
         with self._processor.ftp_client.session() as session:
             try:
                 yield from session.start_listing(directory_request)
-            except FTPServerError:
+
+                temp_file = tempfile.NamedTemporaryFile(
+                    dir=self._item_session.app_session.root_path,
+                    prefix='tmp-wpull-list'
+                )
+
+                with temp_file as file:
+                    directory_response = yield from session.download_listing(
+                        file,
+                        duration_timeout=self._fetch_rule.duration_timeout)
+            except REMOTE_ERRORS:
                 _logger.debug('Got an error. Assume is file.')
 
                 if use_cache:
                     self._processor.listing_cache[directory_url] = None
 
                 return
-
-            temp_file = tempfile.NamedTemporaryFile(
-                dir=self._item_session.app_session.root_path,
-                prefix='tmp-wpull-list'
-            )
-
-            with temp_file as file:
-                directory_response = yield from session.download_listing(
-                    file, duration_timeout=self._fetch_rule.duration_timeout)
 
         if use_cache:
             self._processor.listing_cache[directory_url] = \
